@@ -25,7 +25,8 @@ WALLCAP = {'quick': 500, 'thorough': 3000}
 if os.environ.get('VERIF_DOM_BUDGET'): BUDGET = dict(BUDGET, quick=int(os.environ['VERIF_DOM_BUDGET']))    # development knob (sensitivity runs)
 
 ACTIVE_EXCLUSIONS = {
-    # C13 findings (same tree code) 'C13-normalize-empty-text', 'C13-setAttributeNode-self',
+    # C13 findings (same tree code)
+    'C13-normalize-empty-text', 'C13-setAttributeNode-self',
     'C13-setAttributeNodeNS-self-inuse', 'C13-setAttributeNS-keeps-prefix', 'C13-setAttributeNS-prefixed-lookup',
     'C13-document-fragment-partial-insert', 'C13-clone-attr-specified', 'C13-clone-loses-defaults',
     'C13-document-replaceChild-self', 'C13-setNamedItemNS-breaks-sort-order',
